@@ -564,6 +564,39 @@ def run(ctx):
     ctx.ob("C13.R2", "PackedQuat.encode is arithmetic-free (drops W, never rescales components)", not arith,
            ctx.w(enc, arith[0]) if arith else enc.where,
            "decode rebuilds W from the three wire components; any arithmetic on them in encode changes the re-encoded bytes")
+    # R3: the shared normaliser works in place - it must only ever do so on a fresh fast-reader result
+    ctx.rule("C13.R3", "normalize_object_update_compressed_data mutates (del/pop/store) only a dict freshly produced by "
+                       "the hand-written reader (or an explicit copy) - never its argument or a cached template result")
+    from ..core import stores as _stores
+    nf = repo.fn("normalize_object_update_compressed_data", OBJ)
+    mutated = {}
+    for st in _stores(nf.node, into_defs=False):
+        if st.kind in ("delitem", "setitem", "augsetitem") or (st.kind == "mutcall" and st.method in ("pop", "update", "clear", "setdefault", "popitem")):
+            if "." not in st.path:
+                mutated.setdefault(st.path, st)
+    ctx.require(bool(mutated), "normalize_object_update_compressed_data no longer normalises in place (re-read)")
+    params = {a.arg for a in nf.node.args.args}
+    for name, st in mutated.items():
+        srcs = [s.value for s in _stores(nf.node, into_defs=False) if s.path == name and s.kind == "assign" and s.value is not None]
+        def fresh(v):
+            if isinstance(v, ast.Call):
+                fn = ap(v.func) or ""
+                if fn.endswith("FastObjectUpdateCompressedDataDeserializer.read") or fn.split(".")[-1] in ("dict", "copy", "deepcopy"):
+                    return True
+            if isinstance(v, ast.Dict):
+                return True
+            return False
+        ok = name not in params and bool(srcs) and all(fresh(v) for v in srcs)
+        ctx.ob("C13.R3", f"normalize_object_update_compressed_data: `{name}` (mutated in place) is always a fresh reader result",
+               ok, ctx.w(nf, st.node), f"assigned from {[norm(v) for v in srcs] or 'a parameter'}: normalising a shared dict in place "
+               f"corrupts the template result cached on the block")
+    callers = [c for f2 in repo.all_funcs if f2.parent_fn is None for c in calls(f2.node, into_defs=True)
+               if (ap(c.func) or "").split(".")[-1] == "normalize_object_update_compressed_data"]
+    for c in callers:
+        a0 = c.args[0] if c.args else None
+        bad = a0 is not None and "_ser_cache" in src(a0) or (a0 is not None and any(isinstance(x, ast.Call) and (ap(x.func) or "").endswith("deserialize_var") for x in ast.walk(a0)))
+        ctx.ob("C13.R3", f"caller passes the raw payload: {norm(c)}", not bad, f"{OBJ}:{c.lineno}",
+               "the normaliser must decode the payload bytes itself (fast reader), not reuse a deserialised template value")
     # endianness
     base = repo.cls("BaseSubfieldSerializer", SER)
     e_node = repo.class_attr(tci, "ENDIANNESS")
